@@ -80,6 +80,7 @@ func (w *World) BuildFuncUnit(con *Contract) (u *Unit) {
 		f.set(p, v)
 		pvals = append(pvals, v)
 	}
+	u.M0 = u.installGlobals(u.M0, fn, w.stubs[con])
 	// captured variables of a closure: cells in fresh-world objects holding symbolic values
 	mem := u.M0
 	f.cur = BState{reach: tb.True(), mem: mem}
@@ -172,6 +173,7 @@ func (w *World) BuildLemmaUnit(con *Contract) (u *Unit) {
 		f.inl[n] = true
 	}
 	u.lemmaMode = true
+	u.M0 = u.installGlobals(u.M0, fn)
 	for _, p := range fn.Params {
 		f.set(p, u.input(p.Name(), p.Type()))
 	}
